@@ -298,9 +298,9 @@ def _check_oplog(entry: dict, wv: WheelView, out: list[dict]) -> None:
                 out.append(_fail(f"{tag} {op['rel_path']!r}: file type bits {wv.filetype_bits(info):o} != source {op['st_mode'] & 0o170000:o}"))
 
 
-def _check_prepare(spec: dict, entry: dict, wv: WheelView | None, out: list[dict]) -> None:
-    res = entry["results"].get("prepare")
-    tag = f"[{entry['label']}/{entry['api']}/prepare]"
+def _check_prepare(spec: dict, entry: dict, wv: WheelView | None, out: list[dict], kind: str = "prepare") -> None:
+    res = entry["results"].get(kind)
+    tag = f"[{entry['label']}/{entry['api']}/{kind}]"
     if res is None:
         return
     if "error" in res:
@@ -365,6 +365,19 @@ def c01_oracle(spec: dict, artefacts: dict) -> list[dict]:
             if "wheel" in views:
                 _check_oplog(entry, views["wheel"], out)
             _check_prepare(spec, entry, views.get("wheel"), out)
+            # the editable metadata hook against the editable wheel (same settings, local-version label included)
+            _check_prepare(spec, entry, views.get("editable"), out, kind="prepare_editable")
+            if entry.get("compare_with") == "base":
+                # dist-info prepared by another process against the wheels of the base process
+                base_e = artefacts["builds"][0]
+                for kind, wkind in (("prepare", "wheel"), ("prepare_editable", "editable")):
+                    bres = base_e["results"].get(wkind)
+                    if bres is not None and "error" not in bres and os.path.exists(bres.get("path", "")):
+                        bw = WheelView(bres["path"])
+                        try:
+                            _check_prepare(spec, entry, bw, out, kind=kind)
+                        finally:
+                            bw.close()
             # a wheel built with the prepared metadata must equal the plain wheel
             if "wheel_md" in views and "wheel" in views:
                 a = Path(entry["results"]["wheel"]["path"]).read_bytes()
